@@ -6,3 +6,6 @@ import SmtpV.Props.C10
 #print axioms SmtpV.Props.C10.C10_upgrade_discards_session
 #print axioms SmtpV.Props.C10.C10_new_session_sees_tls
 #print axioms SmtpV.Props.C10.C10_failed_handshake_changes_nothing
+#print axioms SmtpV.Props.C10.C10_client_plain_frozen
+#print axioms SmtpV.Props.C10.C10_client_plaintext_only_upgrade
+#print axioms SmtpV.Props.C10.C10_client_stops_when_upgrade_fails
